@@ -1,52 +1,59 @@
 import Gaftools.Spec.Gaf
+import Gaftools.Proofs.GafLemmas
 /-!
 # C16 — GAF optional fields survive parsing and re-serialisation verbatim
 -/
 namespace Gaftools.C16
-open Gaftools.Gaf Gaftools.Spec.Gaf
+open Gaftools.Gaf Gaftools.Spec.Gaf Gaftools.Proofs.Gaf
 
 /-- `%d` of `int()` reproduces a canonical decimal -/
 theorem dec_toNat (s : Str) (h : canonDec s = true) : dec (toNat s) = s := by
-  sorry
+  exact dec_toNat' s h
 
 /-- `int()` of `%d` -/
 theorem toNat_dec (n : Nat) : toNat (dec n) = n := by
-  sorry
+  exact toNat_dec' n
 
 /-- the line layer: right-strip and tab-split of a printed well-formed record gives its fields back -/
 theorem split_join (fs : List Str) (h : wfFields fs = true) (nl : Str) (hnl : nl = [] ∨ nl = ['\n']) :
     splitTab (rstrip (joinTab fs ++ nl)) = fs := by
-  sorry
+  exact split_join' fs h nl hnl
 
 /-- a well-formed record always parses -/
 theorem parse_isSome (fs : List Str) (h : wfFields fs = true) : (parseFields fs).isSome = true := by
-  sorry
+  have := print_parse_K1' fs h
+  cases hp : parseFields fs with
+  | none => rw [hp] at this; cases this
+  | some r => rfl
 
 /-- MAIN: print ∘ parse reproduces the record — read name cut at the first space, columns 2–12 verbatim, every
     optional field verbatim and in the original order, only `ds:Z:` dropped — provided no TAG:TYPE repeats -/
 theorem print_parse (fs : List Str) (h : wfFields fs = true) (hr : noRepeatedTag fs = true) :
     (parseFields fs).map printFields = some (expected fs) := by
-  sorry
+  rw [print_parse_K1' fs h, expectedK1_eq' fs hr]
 
 /-- no optional field is invented (holds with repeated tags too; in particular no empty `cg:Z:` for a record without CIGAR) -/
 theorem no_invented_field (fs : List Str) (h : wfFields fs = true) (r : Rec) (hp : parseFields fs = some r) :
     ∀ f ∈ (printFields r).drop 12, f ∈ fs.drop 12 := by
-  sorry
+  exact no_invented_field' fs h r hp
 
 /-- with repeated tags the behaviour is exactly the recorded known finding K1 (first occurrence kept; cg:Z: keeps its
     first position and last value) -/
 theorem print_parse_K1 (fs : List Str) (h : wfFields fs = true) :
     (parseFields fs).map printFields = some (expectedK1 fs) := by
-  sorry
+  exact print_parse_K1' fs h
 
 /-- consistency of the two expectations on the quantified domain -/
 theorem expectedK1_eq (fs : List Str) (hr : noRepeatedTag fs = true) : expectedK1 fs = expected fs := by
-  sorry
+  exact expectedK1_eq' fs hr
 
 /-- whole-line statement -/
 theorem print_parse_line (fs : List Str) (h : wfFields fs = true) (hr : noRepeatedTag fs = true) :
     (parseLine (joinTab fs ++ ['\n'])).map printRec = some (joinTab (expected fs)) := by
-  sorry
+  unfold parseLine
+  rw [split_join' fs h ['\n'] (Or.inr rfl), Option.map_congr (f := printRec) (g := joinTab ∘ printFields) (fun _ _ => rfl),
+    ← Option.map_map, print_parse_K1' fs h, expectedK1_eq' fs hr]
+  rfl
 
 /-! non-vacuity -/
 def exLine : List Str := ["r1 extra", "100", "0", "100", "+", ">s1<s2", "3293", "0", "100", "97", "100", "60",
